@@ -40,8 +40,9 @@ PosOf(d, itsel, i) ==
 (* variables a save call files: the selection (or all), plus 'it' and 't' when the dictionary has them *)
 SaveVars(d, varsel) == (IF varsel = << >> THEN DVars(d) ELSE Range(varsel) \cap DVars(d))
                        \cup (IF Dicts[d].hasT THEN {"t"} ELSE {})
-HasEntry(d, v, p) == /\ v \in DVars(d) /\ Dicts[d].cols[v] # << >> /\ p >= 1 /\ p <= Len(Dicts[d].cols[v])
-                     /\ Dicts[d].cols[v][p] = 1
+HasEntry(d, v, p) == IF v = "t" THEN Dicts[d].hasT /\ p >= 1 /\ p <= NRows(d)     \* the time column has no holes
+                     ELSE /\ v \in DVars(d) /\ Dicts[d].cols[v] # << >> /\ p >= 1 /\ p <= Len(Dicts[d].cols[v])
+                          /\ Dicts[d].cols[v][p] = 1
 (* what one save call files under iteration i *)
 Filed(d, itsel, varsel, i) ==
     LET p == PosOf(d, itsel, i) IN
@@ -57,7 +58,8 @@ GoodPrefix(d, itsel, s) == IF s = << >> \/ PosOf(d, itsel, Head(s)) = 0 THEN {} 
 
 (* `its` = the iterations this call actually files.  Well-formed call: all of them.  A call that selects an   *)
 (* iteration the dictionary does not have may skip it (its = the good ones) or raise when it gets there (its  *)
-(* = the good prefix in processing order); filing anything under that iteration is what is not allowed.       *)
+(* = the good prefix in processing order) or refuse the call up front (its = {}); filing anything under that  *)
+(* iteration is what is not allowed.                                                                          *)
 SaveApply(d, itsel, varsel, rl, slash, its) ==
     /\ Len(hist) < MaxOps
     /\ LET old(i) == IF i \in DOMAIN disk THEN disk[i] ELSE << >>
@@ -76,9 +78,10 @@ Save(d, itsel, varsel, rl, slash) ==
     /\ (~HasIt(d)) => Len(SortSet(Range(itsel))) <= NRows(d)
     /\ \/ SaveApply(d, itsel, varsel, rl, slash, Good(d, itsel))
        \/ /\ Good(d, itsel) # Range(itsel)
-          /\ SaveApply(d, itsel, varsel, rl, slash, GoodPrefix(d, itsel, SortSet(Range(itsel))))
+          /\ \/ SaveApply(d, itsel, varsel, rl, slash, GoodPrefix(d, itsel, SortSet(Range(itsel))))
+             \/ SaveApply(d, itsel, varsel, rl, slash, {})       \* refused before anything is written
 
-Next == \E d \in 1 .. Len(Dicts), itsel \in ItSels, varsel \in VarSels, rl \in Levels, slash \in BOOLEAN :
+Next == \E d \in 1 .. Len(Dicts), itsel \in ItSels, varsel \in VarSels, rl \in Levels, slash \in {FALSE} :
             Save(d, itsel, varsel, rl, slash)
 Spec == Init /\ [][Next]_vars
 
